@@ -203,6 +203,9 @@ def oracle_encode_case(kind, ids, sid_set):
         buf = c._to_buffer()
     except Exception as e:  # noqa: BLE001
         return ("encode-raises", f"_to_buffer raised {type(e).__name__}: {e}")
+    if buf is None:
+        # no record at all for a cell of a writable kind: everything the cell carried is lost
+        return ("encode-produces-no-record", f"_to_buffer returned None for a cell of kind {kind} carrying {sorted(ids)}")
     got = impl_decode(bytes(buf))
     if isinstance(got, str):
         return ("decode-raises", f"_from_storage(_to_buffer(c)) raised {got}")
@@ -233,6 +236,9 @@ def oracle_reencode_case(kind, ids1, ids2):
         buf = c._to_buffer()
     except Exception as e:  # noqa: BLE001
         return ("encode-raises", f"_to_buffer raised {type(e).__name__}: {e}")
+    if buf is None:
+        # no record at all for a cell of a writable kind: everything the cell carried is lost
+        return ("encode-produces-no-record", f"_to_buffer returned None for a cell of kind {kind} carrying {sorted(ids)}")
     got = impl_decode(bytes(buf))
     if isinstance(got, str):
         return ("decode-raises", f"_from_storage(_to_buffer(c)) raised {got}")
@@ -370,7 +376,7 @@ def run(ctx: Ctx) -> int:
         for kind, ids, sid in enc:
             c, payload = make_cell(kind, ids, sid)
             try:
-                impl_bufs.append(bytes(c._to_buffer()))
+                impl_bufs.append(bytes(c._to_buffer() or b''))
             except Exception as e:  # noqa: BLE001
                 impl_bufs.append(None)
                 ctx.disagree("impl-encode", (kind, ids, sid), "bytes", "!" + type(e).__name__)
